@@ -100,7 +100,7 @@ fn year_line(y: i64) -> String {
 }
 
 pub fn run(ctx: &Ctx) -> usize {
-  let ranges: Vec<(i64, i64)> = if ctx.quick() {
+  let ranges: Vec<(i64, i64)> = if false {
     let mut v: Vec<(i64, i64)> = vec![(0, 30), (230, 245), (1640, 1650), (1955, 1965), (7990, 8010), (9988, 9999)];
     let mut rng = ctx.rng(301);
     for _ in 0..40 {
